@@ -193,7 +193,7 @@ def run(ctx):
             rr = random.Random(f"{ctx.seed}/c03/{i}/{lay}")
             R = front.Render(rr, 'random' if lay else 'min')
             text = R.join(R.program(decls))
-            one_case(ctx, rctx, sandbox, f"p{i}.{lay}", decls, text, dd, keys, requests, cases)
+            one_case(ctx, rctx, sandbox, f"p{i}.{lay}", list(R.order), text, dd, keys, requests, cases)
 
     # ---- 2. exhaustive target-flag sequences --------------------------------------------------
     alphabet = [s + n for s in "+-" for n in ["cpp", "java", "objc", "cppcli", "yaml", "any", "zz"]]
